@@ -22,6 +22,9 @@ type TGCase struct {
 	Spec     *spec.Spec `json:"spec"`
 	Inputs   [][]int    `json:"inputs"`
 	Variants []string   `json:"variants,omitempty"`
+	// NestEvery > 0: during every NestEvery-th parse the action of an early
+	// reduction starts a nested parse of the next input (Go variants)
+	NestEvery int `json:"nest_every,omitempty"`
 	Text     string     `json:"grammar_text,omitempty"` // canonical rendering, informational
 }
 
@@ -292,8 +295,13 @@ func runTG(c *Ctx, cases []*TGCase, trace bool) (map[string]map[string]*gen.VRes
 	var jobs []*gen.Job
 	for i, cs := range cases {
 		j := &gen.Job{ID: fmt.Sprintf("g%d", i), Spec: cs.Spec, Variants: variantsByName(cs.Variants)}
-		for _, in := range cs.Inputs {
-			j.Ops = append(j.Ops, gen.Op{Op: "parse", Init: true, In: in, Trace: trace})
+		for k, in := range cs.Inputs {
+			op := gen.Op{Op: "parse", Init: true, In: in, Trace: trace}
+			if cs.NestEvery > 0 && k%cs.NestEvery == cs.NestEvery-1 {
+				op.NestAt = 1 + k%3
+				op.NestIn = cs.Inputs[(k+1)%len(cs.Inputs)]
+			}
+			j.Ops = append(j.Ops, op)
 		}
 		jobs = append(jobs, j)
 	}
